@@ -263,6 +263,9 @@ func init() {
 							return nil, nil
 						}
 						astVal := astFromValue(inputVal.DefaultValue, inputVal.Type)
+						if astVal == nil {
+							return nil, nil
+						}
 						return printer.Print(astVal), nil
 					}
 					if inputVal, ok := p.Source.(*InputObjectField); ok {
@@ -270,6 +273,9 @@ func init() {
 							return nil, nil
 						}
 						astVal := astFromValue(inputVal.DefaultValue, inputVal.Type)
+						if astVal == nil {
+							return nil, nil
+						}
 						return printer.Print(astVal), nil
 					}
 					return nil, nil
@@ -738,8 +744,50 @@ func astFromValue(value interface{}, ttype Type) ast.Value {
 		return val
 	}
 
-	if valueVal.Type().Kind() == reflect.Map {
-		// TODO: implement astFromValue from Map to Value
+	// Enum: the configured default is the internal value; the literal is the
+	// name of the enum value that carries it.
+	if ttype, ok := ttype.(*Enum); ok {
+		internal := valueVal.Interface()
+		for _, enumValue := range ttype.Values() {
+			if reflect.DeepEqual(enumValue.Value, internal) {
+				return ast.NewEnumValue(&ast.EnumValue{
+					Value: enumValue.Name,
+				})
+			}
+		}
+		return nil
+	}
+
+	// Input object: one object field per declared input field that the value
+	// provides, in the order of the field names.
+	if ttype, ok := ttype.(*InputObject); ok {
+		if valueVal.Type().Kind() != reflect.Map || valueVal.Type().Key().Kind() != reflect.String {
+			return nil
+		}
+		fieldMap := ttype.Fields()
+		fieldNames := make([]string, 0, len(fieldMap))
+		for fieldName := range fieldMap {
+			fieldNames = append(fieldNames, fieldName)
+		}
+		sort.Strings(fieldNames)
+		fields := []*ast.ObjectField{}
+		for _, fieldName := range fieldNames {
+			fieldValue := valueVal.MapIndex(reflect.ValueOf(fieldName).Convert(valueVal.Type().Key()))
+			if !fieldValue.IsValid() {
+				continue
+			}
+			fieldAST := astFromValue(fieldValue.Interface(), fieldMap[fieldName].Type)
+			if fieldAST == nil {
+				continue
+			}
+			fields = append(fields, ast.NewObjectField(&ast.ObjectField{
+				Name:  ast.NewName(&ast.Name{Value: fieldName}),
+				Value: fieldAST,
+			}))
+		}
+		return ast.NewObjectValue(&ast.ObjectValue{
+			Fields: fields,
+		})
 	}
 
 	if value, ok := value.(bool); ok {
